@@ -487,6 +487,30 @@ def op_simple(rng, inp, which=None):
     return col_case(inp, "pickle", "m_pickle P", "Ok L", res, {}, sources=[arr])
 
 
+def op_iterate(rng, inp):
+    """iteration, length and position-by-position access: exactly the rows of the column, in order (boxed rows compared
+    modulo NaN/null, which a pandas table cannot tell apart)"""
+    arr, st = inp["arr"], inp["ca"].type
+
+    def run():
+        it = [core.df_to_lrow(x, st) for x in arr]
+        ix = [core.df_to_lrow(arr[i], st) for i in range(len(arr))]
+        rev = [core.df_to_lrow(arr[-1 - i], st) for i in range(len(arr))][::-1]
+        assert len(it) == len(arr), "iteration yields another number of rows than len()"
+        assert cq_lrows(it) == cq_lrows(ix) == cq_lrows(rev), "iteration differs from access by position"
+        return it
+    res = attempt(run)
+    impl = cq_lrows(res[1]) if res[0] == "ok" else "[]"
+    ok = cq_bool(res[0] == "ok")
+    term = (f"(let P := {inp['P']} in let L := {inp['L']} in let impl := {impl} in "
+            f"[{ok} && lrows_eqb (denan_rows (m_rows P)) impl; {ok} && lrows_eqb (denan_rows (rows_of L)) impl; true; true])")
+    return {"stream": "arrayops", "op": "iterate", "term": term, "input": input_repr(inp), "impl_repr": str(res)[:600],
+            "meta": base_meta(inp, impl_raised=res[0] == "err"), "sig": ["iterate", inp["recipe"], len(inp["rows"]), len(inp["schema"])],
+            "trivial": len(inp["rows"]) == 0,
+            "hist": {"op": "iterate", "layout": inp["recipe"], "rows": len(inp["rows"]), "raised": res[0] == "err",
+                     "chunks": inp["st"]["num_chunks"]}}
+
+
 # --------------------------------------------------------------------------------------
 # C05 / C01: element assignment
 
